@@ -81,23 +81,16 @@ theorem concat (d : TokenDef) (hw : wf d = true) (src : Str) (toks : List Token)
   simpa using this
 
 /-- `concat` is not vacuous: every source over the definition's alphabet (each character is in an alphabet or is a
-    one-character opener) is accepted, unless its last character is a minus sign (`parse_symbol` then reads
-    `source[begin + 1]` → IndexError). -/
+    one-character opener) is accepted — also one ending in a minus sign, since 6dc3d89 guards the look-ahead of `parse_symbol`. -/
 theorem total (d : TokenDef) (hw : wf d = true) (hwt : wfTotal d = true) (src : Str)
-    (halpha : ∀ c ∈ src, alphaChar d c = true) (hlast : src.getLast? ≠ some '-') :
-    ∃ toks, parseImpl d src = .ok toks := by
-  apply parseLoop_total hw hwt halpha _ src.length 0 (by omega)
-  intro b hb
-  have hlt := getElem?_lt hb
-  by_cases h : b + 1 < src.length
-  · exact h
-  · exfalso; apply hlast
-    rw [List.getLast?_eq_getElem?]
-    have : src.length - 1 = b := by omega
-    rw [this]; exact hb
+    (halpha : ∀ c ∈ src, alphaChar d c = true) : ∃ toks, parseImpl d src = .ok toks :=
+  parseLoop_total hw hwt halpha src.length 0 (by omega)
 
-/-- the guard of `total` is needed: a trailing minus makes the real lexer raise IndexError -/
-example : (match parseImpl pyDef ['x', ' ', '-'] with | .error .indexError => true | _ => false) = true := by decide +kernel
+/-- regression: a trailing minus is a binary Minus token (it raised IndexError before 6dc3d89); a minus before a
+    non-blank is the unary marker -/
+example : (match parseImpl pyDef ['x', ' ', '-'], parseImpl pyDef ['-', 'x'] with
+    | .ok [_, _, t], .ok [u, _] => decide (t.type = T.minus ∧ t.string = ['-'] ∧ u.string = Special.opUnaryMinus)
+    | _, _ => false) = true := by decide +kernel
 
 /-- The slice of the source addressed by each raw token's (line, column) span is that token's text, and none of the four
     numbers is negative. -/
